@@ -98,7 +98,7 @@ def run(ctx):
     mism, _, n = ctx.validate(evp, chunk=2500, jvms=6, workers=2)
     steps = 0
     skipped = 0
-    for e in core.read_ndjson(evp):
+    for e in core.iter_ndjson(evp):
         ctx.nontrivial.add((e["doc"] or e["id"].split("#")[0], json.dumps([[s["op"], s["path"], s["key"], s["i"], s["v"]["k"]] for s in e["steps"]])))
         steps += sum(1 for s in e["steps"] if s["res"] == "ok")
         skipped += sum(1 for s in e["steps"] if s["res"] == "skip")
@@ -108,7 +108,7 @@ def run(ctx):
     # model drift of the implementation-shaped printer (EncodeImpl): reported in the evidence, never a violation
     drift = [m for m in mism if m["what"] == "drift-encode"]
     mism = [m for m in mism if m["what"] != "drift-encode"]
-    compared = sum(1 for e in core.read_ndjson(evp) for k, s in enumerate(e["steps"])
+    compared = sum(1 for e in core.iter_ndjson(evp) for k, s in enumerate(e["steps"])
                    if s["res"] == "ok" and all(x["op"] in ("insert", "remove") for x in e["steps"][:k + 1]))
     ctx.extra["model_drift_EncodeImpl"] = {"histories": n, "insert_remove_steps_leading_a_history": compared, "statement_order_mismatches": len(drift),
                                            "first": [{"doc": m["event"]["doc"], "step": m["detail"]["step"], "op": m["detail"]["op"]} for m in drift[:5]]}
